@@ -179,7 +179,16 @@ class _Collector:
     def __init__(self):
         self.found = []
 
+    not_computable = 0
+
     def violation(self, key, what, spec=None):
+        if key.startswith("sample-crash") and "refers to a single memory location" in what:
+            # torch refuses an in-place write into an expanded tensor (a composition of shipped transforms in which one hands on an
+            # expanded view - torchvision's 3-channel grayscale - and the next one writes in place): the SAMPLE cannot be computed, in the
+            # parent and in every worker alike. Whether every composition of transforms is computable is not C09's statement (it is about
+            # the streams of the workers), so such a stack is skipped and counted, not reported.
+            _Collector.not_computable += 1
+            return
         self.found.append({"key": key, "what": what, "place": None, "confirm": False})
 
     def refusal(self, cls):
@@ -405,7 +414,7 @@ def fingerprint(spec):
         _seed_globals(spec["build_seed"] + 1)
         built.dataset.worker_init_fn(spec["parent_hook"], **kw)
     if not _parent_samples(col, built.dataset, spec):
-        raise RuntimeError(col.found[-1]["what"][:300])
+        raise RuntimeError(col.found[-1]["what"][:300] if col.found else "the stack's samples cannot be computed (in-place write into an expanded tensor)")
     n = len(built.dataset)
     r = pyrandom.Random(spec["idx_seed"])
     idxs = [r.randrange(n) for _ in range(spec["K"])]
